@@ -402,7 +402,7 @@ func exploreCfg(w *vf.Worker, c *cfg, b int, dir string) {
 			}
 			return o
 		},
-		MaxExecs:  40000,
+		MaxExecs:  400000,
 		MaxSteps:  4000,
 		StallSecs: 10,
 	}
@@ -440,8 +440,7 @@ func exploreCfg(w *vf.Worker, c *cfg, b int, dir string) {
 		return map[string]any{"config": c.Name, "b": b, "argv": argv, "files": c.Files, "read_fail_after": c.ReadAt, "stdout_write_fails_at": c.FailW, "schedule": sched}
 	}
 	if r.Stalled {
-		w.Violation("stall:"+key, "a goroutine ran 10 s without reaching a scheduling point (spin / non-termination; normal steps take microseconds) in "+key, rp(r.StalledAt))
-		w.Abandon() // the runaway goroutine cannot be reaped: leave this process, the parent resumes after this case
+		w.Stalled("stall:"+key, "a goroutine ran 10 s without reaching a scheduling point (spin / non-termination; normal steps take microseconds) in "+key, rp(r.StalledAt))
 	}
 	if !r.Exhaustive {
 		w.Inexhaustive(fmt.Sprintf("%s: execution budget hit (states=%d)", key, r.States))
